@@ -1,4 +1,5 @@
 """C18 - decoding follows the documented lifecycle and builds exactly what is listed."""
+import json
 from ..drivers import decode as D
 
 MC = "Decode.tla"
@@ -31,4 +32,7 @@ def run(ctx):
     ctx.exhaustive = True
     n = 300 if q else 3000
     progs = [[D.random_desc(ctx.rng) for _ in range(ctx.rng.choice([1, 2, 4]))] for _ in range(n)]
+    for pr in progs:
+        if ctx.rng.random() < 0.5:
+            pr.append(json.loads(json.dumps(pr[0])))          # the first description once more (a re-run)
     validate(ctx, progs, "random descriptions up to 4 systems / 4 groups of 0..4 agents, arbitrary priorities and ids, decoded repeatedly")
